@@ -13,6 +13,8 @@ func init() {
 			c.ruleLazyIndex("R-LAZY-INDEX")
 			c.ruleLazyIndexExclusive("R-LAZY-INDEX-EXCLUSIVE")
 			c.ruleLazyExpandBeforeDecode("R-LAZY-EXPAND-BEFORE-DECODE")
+			c.ruleLazyDepthScope("R-LAZY-DEPTH-SCOPE")
+			c.ruleMergeLoop("R-MERGE-LOOP")
 			c.ruleLazyPassthrough("R-LAZY-PASSTHROUGH")
 			c.ruleDecodeSiblings("R-DECODE-SIBLINGS")
 			c.ruleLazyFieldParity("R-LAZY-FIELD-PARITY")
